@@ -262,20 +262,62 @@ def fam_branch_end(arg):
     return acc.result()
 
 
+def pair1_bodies():
+    """Depth-1 bodies with EVERY decoration (a loop with and without break / continue guards) - the siblings of pairs1."""
+    out = []
+    for idx in chains.chains(1):
+        levels = chains.chain_levels(idx)
+        is_loop = levels[0][0] in chains.LOOPS
+        for deco in (range(4) if is_loop else (0,)):
+            for leaf in ((0, 2) if is_loop else (0,)):
+                out.append({'levels': levels, 'decos': [deco], 'leaf': leaf, 'style': 'tape', 'scope': 'global'})
+    return out
+
+
+def check_pair1(case, acc):
+    bodies = pair1_bodies()
+    body = build_pair(bodies[case['a']], bodies[case['b']], case['placement'])
+    src = ast.source(body)
+    c2 = dict(case, source=src)
+    model = parse_or_violation(src, c2, acc)
+    if model is None:
+        return
+    n = static_check(model, c2, acc)
+    if n >= 3:
+        acc.nontrivial += 1
+    acc.outcome(n)
+    if case.get('dyn') is not None:
+        dynamic_check(body, model, c2, acc, case['dyn'])
+
+
+def fam_pairs1(arg):
+    acc = Acc('pairs1')
+    nb = len(pair1_bodies())
+    for a in arg:
+        for b in range(nb):
+            for placement in PLACEMENTS:
+                acc.cases += 1
+                check_pair1({'a': a, 'b': b, 'placement': placement, 'dyn': 1 if placement in ('global+global', 'func+func') else None}, acc)
+        acc.sample({'a': pair1_bodies()[a], 'placement': 'func+func'})
+    return acc.result()
+
+
 def families(tier):
     load_impl()
     nb = len(pair_bodies())
+    nb1 = len(pair1_bodies())
     be = chains.branch_end_specs()
     return [
         Family('branch_end', fam_branch_end, split(be, 32), 'an if chain (if / if-else / if-elif / if-elif-else) inside a loop (while, for, counter while) where every branch independently ends in nothing / break / continue / return; x 2 scopes x 3 surroundings; static + dynamic (bound 2)', expected=len(be)),
         chain_family(tier),
+        Family('pairs1', fam_pairs1, split(list(range(nb1)), 16), f'every ordered pair of the {nb1} depth-1 bodies (each loop with every guard decoration and with/without a continue leaf) x 5 placements: a loop WITH a continue next to a loop WITHOUT one', expected=nb1 * nb1 * len(PLACEMENTS)),
         Family('pairs', fam_pairs, [(tier, r) for r in split(list(range(nb)), 48)],
                f'every ordered pair of {nb} depth <= 2 chain bodies x placements {list(PLACEMENTS if tier == "thorough" else QUICK_PLACEMENTS)}',
                expected=nb * nb * len(PLACEMENTS if tier == 'thorough' else QUICK_PLACEMENTS)),
     ]
 
 
-_CHECKS = {'chain': check_chain, 'pairs': check_pair, 'branch_end': check_branch_end}
+_CHECKS = {'pairs1': check_pair1, 'chain': check_chain, 'pairs': check_pair, 'branch_end': check_branch_end}
 
 
 def replay(family, case):
